@@ -23,6 +23,11 @@ def _dyn_refs(ss):
     return out
 
 
+# set by a scenario whose author asserts the precondition "inside all limiter ranges" from the data (e.g. a turbine loaded at 0.4 of
+# its rating with PMAX = 1.0): then a limiter that the library reports as active is part of what is judged, not an excuse
+_ASSERT_INSIDE = [False]
+
+
 def observe_init(ss, consistent=True, known_at_limit=()):
     pf = ss.PFlow
     bus_a0, bus_v0 = np.array(ss.Bus.a.v), np.array(ss.Bus.v.v)
@@ -56,7 +61,7 @@ def observe_init(ss, consistent=True, known_at_limit=()):
                 zi = np.atleast_1d(dsc.zi)
                 if len(zi) == mdl.n:
                     at_limit += ["%s.%s[%s]" % (mdl.class_name, dname, mdl.idx.v[k]) for k in range(mdl.n) if mdl.u.v[k] == 1 and zi[k] != 1]
-    inside = all(x in known_at_limit for x in at_limit)
+    inside = all(x in known_at_limit for x in at_limit) or bool(_ASSERT_INSIDE[0])
     consistent = bool(consistent and inside)
     refs = _dyn_refs(ss)
     online = {}
@@ -196,7 +201,9 @@ def stock(sc):
     # whether stock data are "consistent and inside all limiter ranges" is not known: the clause about them is vacuous here
     # a variant of a case that initialises as shipped has consistent data as well: a controller out of service leaves its
     # machine with constant input, load weights that add up to one draw the power-flow power at the power-flow voltage
+    _ASSERT_INSIDE[0] = bool(sc.get("assert_inside"))
     ev = [observe_init(ss, consistent=bool(sc.get("baseline_ok", False)), known_at_limit=tuple(sc.get("baseline_at_limit", ())))]
+    _ASSERT_INSIDE[0] = False
     if not ev[0]["raised"] and ev[0]["test_ok"] and sc.get("probes", True):
         ev.extend(verdict_probes(ss))
     # a case driven by recorded data (time-series / play-back sources) has no undisturbed run
